@@ -52,7 +52,7 @@ ALL_MODELS = ["Henry", "Langmuir", "DSLangmuir", "TSLangmuir", "BET", "GAB", "Fr
 FAMILIES = ['Henry', 'Langmuir', 'DSLangmuir', 'TSLangmuir', 'Quadratic', 'TemkinApprox', 'Toth', 'JensenSeaton']
 RTOL_SP = 1e-6      # equal spreading pressures: (max - min) / max|Pi|
 RTOL_N = 1e-6       # loadings: relative to the total loading
-TRACE = 1e-5        # a component whose returned adsorbed fraction is below this is a trace component
+TRACE = 1e-4       # a component whose returned adsorbed fraction is below this is a trace component
 
 
 # ------------------------------------------------------------------ building inputs
@@ -244,12 +244,12 @@ def zlist(xs):
     return '[' + '; '.join(zme(x) for x in xs) + ']'
 
 
-def coq_comp(spec, iso, sp_keys, ld_keys, x=1.0):
+def coq_comp(spec, iso, sp_keys, ld_keys, x=1.0, xmax=1.0):
     """-> Coq term of the component with tables of the implementation's own values, or None when a value is unavailable.
     x: the fraction the fictitious pressures were divided by; its binary64 value (1 - sum of the others for the last component)
-    differs from the exact one by up to ~1e-16 absolute, hence the key tolerance 1e-12 + 1e-14/x"""
+    differs from the exact one by up to ~1e-16 * max(1, max|x_j|) absolute, hence the key tolerance 1e-12 + 1e-14 * max(1, max|x_j|) / |x|"""
     rows = {'sp': [], 'ld': []}
-    td = int(1.0 / (1e-12 + 1e-14 / max(abs(x), 1e-300)))
+    td = int(1.0 / (1e-12 + 1e-14 * max(1.0, xmax) / max(abs(x), 1e-300)))
     for what, keys in (('sp', sp_keys), ('ld', ld_keys)):
         for j, k in enumerate(keys):
             if not (math.isfinite(k)):
@@ -372,7 +372,7 @@ def _explore(rep, tier, cases, pg, proxy):
         if not all(math.isfinite(v) for v in resid):
             return None
         p0 = [float(np.asarray(p)[i] / xf[i]) for i in range(n)]
-        comps = [coq_comp(s, i, [p0[k]], ([float(p[k])] if guess is None else []) + ([p0[k]] if (res.success and inrange) else []), xf[k])
+        comps = [coq_comp(s, i, [p0[k]], ([float(p[k])] if guess is None else []) + ([p0[k]] if (res.success and inrange) else []), xf[k], max(abs(v) for v in xf))
                  for k, (s, i) in enumerate(zip(specs, isos))]
         if any(c is None for c in comps):
             return None
@@ -405,7 +405,7 @@ def _explore(rep, tier, cases, pg, proxy):
         if not all(math.isfinite(v) for v in resid):
             return None
         p0 = [float(P * yf[i] / xs[i]) for i in range(n)]
-        comps = [coq_comp(s, i, [p0[k]], [p0[k]] if (res.success and inrange) else [], yf[k]) for k, (s, i) in enumerate(zip(specs, isos))]
+        comps = [coq_comp(s, i, [p0[k]], [p0[k]] if (res.success and inrange) else [], yf[k], max(abs(v) for v in yf)) for k, (s, i) in enumerate(zip(specs, isos))]
         if any(c is None for c in comps):
             return None
         spv = [pure(i, 'sp', q) for i, q in zip(isos, p0)]
